@@ -249,6 +249,8 @@ DX_ATTR_NAMES = ("derive_ex", "::derive_ex::derive_ex", "ord", "partial_ord", "e
 # "some trait is not implemented / some bound does not hold": what a generated impl with a wrong where-clause produces,
 # possibly reported at a span of the user's own tokens (field types keep their spans in the generated code)
 TRAIT_CODES = {"E0277", "E0369", "E0204", "E0600", "E0368"}
+# name-resolution / namespace errors: a generated token that repeats a user-chosen name is looked up somewhere else
+NAME_CODES = {"E0573", "E0747", "E0412", "E0425", "E0423", "E0433", "E0532", "E0574", "E0107", "E0109"}
 
 
 def strip_dx(code):
@@ -342,8 +344,10 @@ def judge_pair(base, trans, mapping, control=None):
         return ("skip", "base program does not compile")
     if trans.status == "compile_fail":
         who, d = C.blame(trans)
-        # a transform that also breaks code written by the user / the harness (e.g. a const parameter named like a type
-        # is ambiguous for the std derives as well) is not judged.  Errors located outside derive_ex's output are
+        # a transform that also breaks code written by the user / the harness is not judged.  (An earlier version of this
+        # comment claimed that a const parameter named like a type breaks the std derives as well - it does not, and the
+        # restriction to unsatisfied-trait errors below hid exactly that defect until a red-team agent found it; name
+        # resolution errors inside a derive_ex item are judged with the control now too.)  Errors located outside derive_ex's output are
         # attributed with a control: if the same program without any derive_ex attribute shows the same error code at the
         # same line, the transform broke the program itself; an unsatisfied-trait error that the control does not show
         # comes from a generated impl.
@@ -355,7 +359,7 @@ def judge_pair(base, trans, mapping, control=None):
             # all inside those items (the renamed item by itself is fine).
             ranges = dx_item_ranges(trans.code)
             inside = lambda x: x.get("rel") is not None and any(a <= x["rel"] <= b for a, b in ranges)
-            if SHADOW in trans.code or SHADOW2 in trans.code or not all(x["code"] in TRAIT_CODES and inside(x) for x in outside):
+            if SHADOW in trans.code or SHADOW2 in trans.code or not all(x["code"] in (TRAIT_CODES | NAME_CODES) and inside(x) for x in outside):
                 return ("harness", f"{d['code']}: {str(d['message'])[:120]}")
             if control is None:
                 return ("need-control", "")
